@@ -494,9 +494,13 @@ def evaluate__ceiling_and_floor_functions(self: XPathFunction, context: ta.Conte
 
         assert isinstance(arg, (int, float, decimal.Decimal))
         if self.symbol == 'floor':
-            return type(arg)(math.floor(arg))
+            result = type(arg)(math.floor(arg))
         else:
-            return type(arg)(math.ceil(arg))
+            result = type(arg)(math.ceil(arg))
+        if isinstance(arg, float) and result == 0:
+            # a zero result keeps the sign of the argument: ceiling(-0.5e0) and floor(-0.0e0) are -0
+            return type(arg)(math.copysign(result, arg))
+        return result
     except TypeError as err:
         if isinstance(context, XPathSchemaContext):
             return []
